@@ -51,6 +51,9 @@ def run(c, facts, tier):
     )
     c.decided = ["print added iff no action at any depth", "wrap is And(whole expression, default print)", "nothing added otherwise"]
     c.not_decided = ["what (print-relative-path) prints at run time"]
+    from .. import report as _rep
+
+    _rep.require(c, facts, "c01", "C09.detect", "parse", "every action written in the text is an action node of the tree", lambda o: o["rule"] in ("C01.api", "C01.lex-ops", "C01.atom", "C01.token-eq"), "which actions the compiled tree contains is decided by the C01 rules on the glue, the token classes and the atom table")
     fa = facts.fn("Expression::action")
     r = treeq.check_exists(facts, fa)
     c.ob("C09.detect", fa.key, "action() = 'an action node occurs at some depth'", r["ok"], "; ".join(r["problems"]) or "complete recursion over Precedence/Not/And/Or/List; wildcard hides only %s" % r["hidden"], witness="! -print  /  -false -o -print" if not r["ok"] else None)
